@@ -61,6 +61,7 @@ def entity(kind, path, seed=0, tag_=None):
     if kind == 'tclass':
         C = 'Tc' + s
         return [D.cls(C, [D.ctor(C, [arg(T('T', 1, '&'), 'v')]), D.method(single(T('T')), 'value', [], 1),
+                          D.enum('Mode', ['M1', 'M2']), D.enum('Level', ['LOW', 'HIGH'], 'enum class'),
                           D.static(single(T('This')), 'Id', []),
                           D.method(single(T('U')), 'as', [arg(T('U', 1, '&'), 'u')], tpl=[D.tparam('U', [T('int'), T('ns::Rot')])]),
                           # an instance template and a static method of the same C++ name (different Python names), and vice versa
@@ -153,6 +154,11 @@ def reopened(kinds, seed):
     out = [D.include('sub/inc_a.h')]     # its path ends with the path of an earlier include
     for k in kinds:
         out += entity(k, ['a'], seed, tag_='_a2')
+    # ... and the sub-namespace a::b is opened again inside it
+    inner = []
+    for k in kinds:
+        inner += entity(k, ['a', 'b'], seed, tag_='_ab2')
+    out.append(D.ns('b', inner))
     return out
 
 
